@@ -349,7 +349,7 @@ Theorem recv_ok_inv cfg e w p tape lie :
   exists denom amount sender receiver pl f t t' a cp acalls fcalls ams mv o',
     transfer cfg e w p lie (recv_lie cfg e w p tape lie) denom amount sender receiver pl f t t' a cp acalls fcalls ams mv o'.
 Proof.
-  unfold recv_lie, recv_with. fold (initial_pst w tape).
+  unfold recv_lie, recv_with, recv_generic. fold (initial_pst w tape).
   destruct (ccid_valid {| c_proto := protocol_ibc; c_cp := pk_dchan p |}) eqn:Hsrc; cbn [negb]; [|discriminate].
   destruct (String.eqb (pk_sport p) "" || String.eqb (pk_schan p) ""); [discriminate|].
   destruct (existsb (Z.eqb protocol_ibc) (cfg_adapter_routes cfg)); cbn [negb]; [|discriminate].
